@@ -312,10 +312,13 @@ class Obligation:
 
 
 class Forall:
-    """Universally quantified clause over hash keys: fn(k: SStr) -> SBool."""
+    """Universally quantified clause: fn(x) -> SBool, x ranging over str (hash keys, names; the default) or int
+    (pack ids, row ids).  Never sent to the solver as a quantifier: hypotheses are instantiated at the ground terms
+    registered on the path (`Engine.key` / `Engine.ikey`), goals are skolemised."""
 
-    def __init__(self, fn):
+    def __init__(self, fn, sort='str'):
         self.fn = fn
+        self.sort = sort
 
 
 # ----------------------------------------------------------------------------- the engine
@@ -344,6 +347,7 @@ class Engine:
         self.work = []
         self.univ = []
         self.key_terms = []
+        self.int_terms = []
         self.path_id = 0
         self.path_log = []
         self.env_hook = None
@@ -365,6 +369,7 @@ class Engine:
                 self.solver.add(k.t >= 1)
             self.univ = []
             self.key_terms = []
+            self.int_terms = []
             self.path_log = []
             self.ghost = {}
             reset_names()
@@ -392,8 +397,8 @@ class Engine:
         key = cond.get_id()
         cache = self.ghost.setdefault('__prove_cache__', {})
         # a cached True stays valid (the path condition only grows); a cached False is retried
-        if cache.get(key):
-            return True
+        if key in cache:
+            return True        # the cached term is kept alive below, so its AST id cannot be recycled for another term
         self.solver.push()
         self.solver.set('timeout', 2000)
         try:
@@ -406,7 +411,7 @@ class Engine:
             self.solver.pop()
             self.solver.set('timeout', self.timeout_ms)
         if r == z3.unsat:
-            cache[key] = True
+            cache[key] = cond
             return True
         return False
 
@@ -478,7 +483,7 @@ class Engine:
     def assume(self, f):
         if isinstance(f, Forall):
             self.univ.append(f)
-            for k in list(self.key_terms):
+            for k in list(self.key_terms if f.sort == 'str' else self.int_terms):
                 self.solver.add(SBool.of(f.fn(k)).t)
             return
         if isinstance(f, bool):
@@ -494,9 +499,22 @@ class Engine:
             if e.t.eq(k.t):
                 return k
         self.key_terms.append(k)
-        for f in self.univ:
-            self.solver.add(SBool.of(f.fn(k)).t)
+        for f in list(self.univ):
+            if f.sort == 'str':
+                self.solver.add(SBool.of(f.fn(k)).t)
         return k
+
+    def ikey(self, i):
+        """Register an integer term (pack id, row id) for instantiation of int-quantified hypotheses."""
+        i = SInt.of(i)
+        for e in self.int_terms:
+            if e.t.eq(i.t):
+                return i
+        self.int_terms.append(i)
+        for f in list(self.univ):
+            if f.sort == 'int':
+                self.solver.add(SBool.of(f.fn(i)).t)
+        return i
 
     def fresh_key(self, hint='k'):
         return self.key(SStr.fresh(hint))
@@ -510,7 +528,7 @@ class Engine:
             ob = self.obligations[name] = Obligation(name)
         ob.paths += 1
         if isinstance(f, Forall):
-            f = f.fn(self.fresh_key('sk'))
+            f = f.fn(self.fresh_key('sk') if f.sort == 'str' else self.ikey(SInt.fresh('ski')))
         if isinstance(f, bool):
             f = SBool.of(f)
         t = z3.simplify(SBool.of(f).t)
